@@ -10,5 +10,5 @@ for p in "$@"; do
   echo "== $p exit=$? : $(grep -c '^VIOLATION' /var/tmp/try_seed_$p.out) violations"
   grep -E '^(VIOLATION|ENGINE-ERROR)' /var/tmp/try_seed_$p.out | sed 's/replay=\/verif\/replays\///' | head -8
 done
-git -C /repo checkout -- . 
+git -C /repo apply -R "$patch"
 cd /verif && git checkout -- evidence 2>/dev/null
